@@ -145,8 +145,10 @@ class JsonDocument(HierDictDocument):
         return value
 
     def _ret_bool(self, cls, value):
-        if value is None or value in (True, False):
+        if value is None:
             return value
+        if value in (True, False):  # also the numbers 0 and 1
+            return bool(value)
         raise ValidationError(value)
 
     def validate(self, key, cls, val):
